@@ -141,7 +141,7 @@ a_real a_mf_linz(a_real x, a_real a, a_real b)
 
 a_real a_mf_s(a_real x, a_real a, a_real b)
 {
-    if (x > (a + b) / 2)
+    if (x > a / 2 + b / 2)
     {
         if (x < b)
         {
@@ -168,7 +168,7 @@ a_real a_mf_s(a_real x, a_real a, a_real b)
 
 a_real a_mf_z(a_real x, a_real a, a_real b)
 {
-    if (x < (a + b) / 2)
+    if (x < a / 2 + b / 2)
     {
         if (x > a)
         {
